@@ -53,8 +53,16 @@ def diff_json(d):
     return out
 
 
+def sk_json(sk):
+    if not sk:
+        return None
+    n = sk[0]
+    return ["inf" if n == float("inf") else ("-inf" if n == float("-inf") else int(n)), sk[1], bool(sk[2])]
+
+
 def patch_json(p):
-    return [{"row": str(i.row), "child": None if i.child is None else patch_json(i.child)} for i in p.itms]
+    return [{"row": str(i.row), "child": None if i.child is None else patch_json(i.child), "sk": sk_json(i.sort_key)}
+            for i in p.itms]
 
 
 def fmt_for(vendor):
@@ -117,6 +125,36 @@ def one(case):
                 res["file_err"] = "AssertionError"
             except Exception as e:  # noqa
                 res["file_err"] = type(e).__name__ + ":" + str(e)[:200]
+        if case.get("c08"):
+            from unittest import mock
+            from annet.annlib.patching import PatchTree, Orderer
+            try:
+                with mock.patch.object(PatchTree, "sort", lambda self: None):
+                    _, pu = api._diff_and_patch(dev, to_odict(case["old"]), to_odict(case["new"]), acl, None, False, rb=rb)
+                res["patch_unsorted"] = patch_json(pu)
+            except AssertionError:
+                res["patch_unsorted_err"] = "AssertionError"
+            orderer = Orderer(rb["ordering"], vendor)
+            o1 = orderer.order_config(to_odict(case["new"]))
+            res["order_new"] = tree_json(o1)
+            res["order_twice"] = tree_json(Orderer(rb["ordering"], vendor).order_config(o1))
+            pick = case.get("meta_pick")
+            if pick is not None and "diff_full" in res:
+                # an *unrelated* top-level row: its (rule, key) slot is shared with no other top-level row
+                slots = {}
+                for n in res["diff_full"]:
+                    slots.setdefault((n["raw"], tuple(n["key"])), []).append(n["row"])
+                elig = sorted(rows[0] for rows in slots.values() if len(rows) == 1)
+                if elig:
+                    r = elig[pick % len(elig)]
+                    res["meta_row"] = r
+                    old2 = to_odict({k: v for k, v in case["old"].items() if k != r})
+                    new2 = to_odict({k: v for k, v in case["new"].items() if k != r})
+                    try:
+                        _, p2 = api._diff_and_patch(dev, old2, new2, acl, None, False, rb=rb)
+                        res["meta_patch"] = patch_json(p2)
+                    except AssertionError:
+                        res["meta_err"] = "AssertionError"
         res["old_after"] = tree_json(old) == case["old"]
         res["new_after"] = tree_json(new) == case["new"]
     except Exception as e:  # noqa
